@@ -3,6 +3,7 @@ package props
 import (
 	"bytes"
 	"compress/flate"
+	"fmt"
 	"io"
 	"testing"
 
@@ -93,3 +94,44 @@ func checkC01Seq(q C01Seq) h.Outcome {
 
 func TestC01_PSeq(t *testing.T)      { h.RunProp(t, "C01.seq", genC01Seq, checkC01Seq) }
 func TestC01_ReplaySeq(t *testing.T) { h.RunReplay(t, "C01.seq", checkC01Seq) }
+
+// TestC01_GridBig: genuine signed assertions of 100..1200 elements (plain or encrypted) in an unsigned Response,
+// with a forged assertion placed by every forge variant. Large trees meet the signature library's traversal
+// budget; whatever happens then, nothing unsigned may ride along.
+func TestC01_GridBig(t *testing.T) {
+	var cases []AttackCase
+	for _, n := range []int{100, 480, 520, 700, 990, 1200} {
+		for ei, enc := range []bool{false, true} {
+			for variant := 0; variant <= 10; variant++ {
+				if n >= 700 && variant%3 != 1 && variant != 7 {
+					continue // the big ones are slow to sign: sibling-after / appended only, plus one in three
+				}
+				sp := h.BaseSP()
+				sp.Store = []h.CertRef{{Key: "T1", Window: "wide"}}
+				sp.Enc = h.KeyCfg{Mode: "tls", Field: h.CertRef{Key: "E1", Window: "wide"}}
+				g := gridGenuine(sp, 1, "assertions")
+				vals := make([]string, n)
+				for i := range vals {
+					vals[i] = fmt.Sprintf("group-%d", i)
+				}
+				g.Model.Assertions[0].Attrs = []h.AttrModel{{Name: "groups", Values: vals}}
+				if enc {
+					g.Enc = []*h.EncSpec{{DataAlg: h.DataAlgs[(variant+ei)%len(h.DataAlgs)], Transport: h.Transports[variant%3], Digest: "-", To: h.CertRef{Key: "E1", Window: "wide"}}}
+					e := g.Enc[0]
+					e.Key = make([]byte, h.KeyLen(e.DataAlg))
+					e.IV = make([]byte, map[bool]int{true: 12, false: 16}[h.IsGCM(e.DataAlg)])
+				}
+				c := AttackCase{SP: sp, Pool: []*h.Genuine{g}, Ops: []h.Op{{Kind: "forge-assertion", A: 0, B: 2, C: variant, S: "admin@evil.example"}}}
+				if enc && variant%2 == 0 {
+					// the forged one encrypted to the SP as well (anyone can)
+					c.Ops = append(c.Ops, h.Op{Kind: "encrypt", A: 0, B: 0, C: variant})
+				}
+				if err := c.build(); err != nil {
+					t.Fatalf("harness: %v", err)
+				}
+				cases = append(cases, c)
+			}
+		}
+	}
+	h.RunCases(t, "C01", cases, checkC01)
+}
